@@ -36,8 +36,28 @@ func choose(t *rapid.T, label string, weights ...int) int {
 	return len(weights) - 1
 }
 
+// The generators take deg: false is the "random" part (draws exactly what it
+// always drew), true the "degenerate" part, which adds the degenerate but
+// valid values (nil and empty request messages, empty credentials, other
+// representations of empty maps) with a high weight.
+
+// genBody draws a body index.
+func genBody(t *rapid.T, deg bool) int {
+	if !deg {
+		return rapid.IntRange(0, nBodies-1).Draw(t, "body")
+	}
+	return []int{bodyNil, 0, 1, 2, bodyEmpty}[choose(t, "body", 6, 2, 2, 1, 2)]
+}
+
+func genCred(t *rapid.T, deg bool) int {
+	if !deg {
+		return rapid.SampledFrom([]int{0, 0, 0, 1, 2}).Draw(t, "cred")
+	}
+	return rapid.SampledFrom([]int{0, 0, 0, 1, 2, credEmpty, credEmpty}).Draw(t, "cred")
+}
+
 // genSpec draws a complete valid configuration from the pools (revision left 0).
-func genSpec(t *rapid.T) *ConfigSpec {
+func genSpec(t *rapid.T, deg bool) *ConfigSpec {
 	c := emptySpec()
 	c.Instance = rapid.SampledFrom([]int{0, 0, 1, 2}).Draw(t, "instance")
 	c.CfgMeta = rapid.SampledFrom([]int{0, 0, 0, 1, 2}).Draw(t, "cfgmeta")
@@ -48,7 +68,7 @@ func genSpec(t *rapid.T) *ConfigSpec {
 	}
 	reqs := rapid.SliceOfNDistinct(rapid.SampledFrom(reqNames), 1, len(reqNames), rapid.ID[string]).Draw(t, "reqs")
 	for _, r := range reqs {
-		c.Requests[r] = rapid.IntRange(0, nBodies-1).Draw(t, "body")
+		c.Requests[r] = genBody(t, deg)
 	}
 	if shape == 1 {
 		return c
@@ -58,7 +78,7 @@ func genSpec(t *rapid.T) *ConfigSpec {
 		c.Targets[n] = TargetSpec{
 			Addr:   rapid.IntRange(1, len(addrPool)-1).Draw(t, "addr"),
 			Req:    rapid.SampledFrom(reqs).Draw(t, "req"),
-			Cred:   rapid.SampledFrom([]int{0, 0, 0, 1, 2}).Draw(t, "cred"),
+			Cred:   genCred(t, deg),
 			Meta:   rapid.SampledFrom([]int{0, 0, 0, 1, 2}).Draw(t, "meta"),
 			Dialer: rapid.SampledFrom([]int{0, 0, 0, 1}).Draw(t, "dialer"),
 		}
@@ -66,16 +86,12 @@ func genSpec(t *rapid.T) *ConfigSpec {
 	return c
 }
 
-var editKinds = func() []string {
-	w := []struct {
-		k string
-		n int
-	}{
-		{"req-edit", 6}, {"req-rename", 3}, {"req-add", 2}, {"req-del", 2},
-		{"tgt-add", 4}, {"tgt-remove", 4}, {"tgt-repoint", 4}, {"tgt-addr", 3},
-		{"tgt-cred", 1}, {"tgt-meta", 1}, {"tgt-dialer", 1}, {"cfg-instance", 1}, {"cfg-meta", 1},
-		{"inv-empty-name", 1}, {"inv-nil-target", 1}, {"inv-no-address", 1}, {"inv-missing-request", 1}, {"inv-dangling-request", 1},
-	}
+type kindWeight struct {
+	k string
+	n int
+}
+
+func expandKinds(w []kindWeight) []string {
 	var out []string
 	for _, e := range w {
 		for i := 0; i < e.n; i++ {
@@ -83,15 +99,37 @@ var editKinds = func() []string {
 		}
 	}
 	return out
-}()
+}
 
-func genEdit(t *rapid.T) Edit {
-	e := Edit{Kind: rapid.SampledFrom(editKinds).Draw(t, "kind")}
+var baseKindWeights = []kindWeight{
+	{"req-edit", 6}, {"req-rename", 3}, {"req-add", 2}, {"req-del", 2},
+	{"tgt-add", 4}, {"tgt-remove", 4}, {"tgt-repoint", 4}, {"tgt-addr", 3},
+	{"tgt-cred", 1}, {"tgt-meta", 1}, {"tgt-dialer", 1}, {"cfg-instance", 1}, {"cfg-meta", 1},
+	{"inv-empty-name", 1}, {"inv-nil-target", 1}, {"inv-no-address", 1}, {"inv-missing-request", 1}, {"inv-dangling-request", 1},
+}
+
+var editKinds = expandKinds(baseKindWeights)
+
+// editKindsDeg: the kinds of the random part plus the ones that introduce a
+// degenerate value into the current configuration.
+var editKindsDeg = expandKinds(append(append([]kindWeight(nil), baseKindWeights...),
+	kindWeight{"req-nil", 7}, kindWeight{"req-empty", 2}, kindWeight{"tgt-cred-empty", 2}))
+
+func genEdit(t *rapid.T, deg bool) Edit {
+	kinds := editKinds
+	if deg {
+		kinds = editKindsDeg
+	}
+	e := Edit{Kind: rapid.SampledFrom(kinds).Draw(t, "kind")}
 	pick := func() int { return rapid.IntRange(0, len(tgtNames)-1).Draw(t, "pick") }
 	name := func() int { return rapid.IntRange(0, len(tgtNames)-1).Draw(t, "name") }
-	bodyI := func() int { return rapid.IntRange(0, nBodies-1).Draw(t, "body") }
+	bodyI := func() int { return genBody(t, deg) }
 	req := func() int { return rapid.IntRange(0, len(reqNames)-1).Draw(t, "req") }
 	switch e.Kind {
+	case "req-nil", "req-empty":
+		e.Pick, e.Req = pick(), req()
+	case "tgt-cred-empty":
+		e.Pick = pick()
 	case "req-edit":
 		e.Pick, e.Body = pick(), bodyI()
 	case "req-rename":
@@ -103,7 +141,7 @@ func genEdit(t *rapid.T) Edit {
 	case "tgt-add":
 		e.Name, e.Req, e.Body = name(), req(), bodyI()
 		e.Addr = rapid.IntRange(0, len(addrPool)-2).Draw(t, "addr")
-		e.Cred = rapid.SampledFrom([]int{0, 0, 0, 1, 2}).Draw(t, "cred")
+		e.Cred = genCred(t, deg)
 		e.Meta = rapid.SampledFrom([]int{0, 0, 0, 1, 2}).Draw(t, "meta")
 		e.Dial = rapid.SampledFrom([]int{0, 0, 0, 1}).Draw(t, "dial")
 	case "tgt-remove", "tgt-dialer":
@@ -136,19 +174,27 @@ var (
 	absRevs = []int64{-1, 0, 1, 2, 3, 7, 100, math.MaxInt64, math.MinInt64}
 )
 
-func genLoad(t *rapid.T) Load {
+// genRepr draws a representation (bit set of repr*), mostly the plain one.
+func genRepr(t *rapid.T) int {
+	return []int{0, reprEmptyMaps, reprNilInner, reprEmptyMaps | reprNilInner}[choose(t, "repr", 6, 3, 1, 1)]
+}
+
+func genLoad(t *rapid.T, deg bool) Load {
 	var ld Load
 	// 0: edits of the current configuration, 1: a complete configuration (plus edits), 2: Load(nil)
 	switch choose(t, "shape", 30, 8, 1) {
 	case 1:
-		ld.Full = genSpec(t)
+		ld.Full = genSpec(t, deg)
 	case 2:
 		ld.NilConfig = true
 		return ld
 	}
-	ld.Edits = rapid.SliceOfN(rapid.Custom(genEdit), 0, 4).Draw(t, "edits")
+	ld.Edits = rapid.SliceOfN(rapid.Custom(func(t *rapid.T) Edit { return genEdit(t, deg) }), 0, 4).Draw(t, "edits")
 	if len(ld.Edits) == 0 {
 		ld.Edits = nil
+	}
+	if deg {
+		ld.Repr = genRepr(t)
 	}
 	if choose(t, "revmode", 9, 1) == 1 {
 		ld.RevAbs = true
@@ -159,17 +205,20 @@ func genLoad(t *rapid.T) Load {
 	return ld
 }
 
-func genScenario(t *rapid.T) *Scenario {
+func genScenario(t *rapid.T, deg bool) *Scenario {
 	sc := &Scenario{}
 	switch choose(t, "base", 5, 4, 1) {
 	case 2:
 		sc.BaseMode = "nil"
 	case 1:
 		sc.BaseMode = "config"
-		sc.Base = genSpec(t)
+		sc.Base = genSpec(t, deg)
 		sc.Base.Rev = rapid.SampledFrom([]int64{0, 0, 1, 5, -2}).Draw(t, "baserev")
+		if deg {
+			sc.BaseRepr = genRepr(t)
+		}
 	}
-	sc.Loads = rapid.SliceOfN(rapid.Custom(genLoad), 1, 12).Draw(t, "loads")
+	sc.Loads = rapid.SliceOfN(rapid.Custom(func(t *rapid.T) Load { return genLoad(t, deg) }), 1, 12).Draw(t, "loads")
 	return sc
 }
 
@@ -182,7 +231,29 @@ func TestC17Random(t *testing.T) {
 	}
 	rec := vstat.New("C17", "random")
 	rec.RunRapid(t, func(rt *rapid.T) {
-		sc := genScenario(rt)
+		sc := genScenario(rt, false)
+		st, err := run(sc)
+		rec.Case(sc, st.nontrivial(), st.labels()...)
+		if err != nil {
+			rt.Fatalf("%s", rec.Fail(sc, failClass(err), "%v", err))
+		}
+	})
+}
+
+// TestC17Degenerate: the same load sequences and the same oracle over
+// configurations with degenerate but valid shapes: request names listed with a
+// nil message (Validate asks only for the key) or an empty one, used by
+// targets or not, as stable content and as what an edit introduces or removes
+// while other targets are added / removed / edited in the same load; empty
+// credentials; empty maps handed over non-nil; a oneof wrapper around a nil
+// message.
+func TestC17Degenerate(t *testing.T) {
+	if !vstat.Enabled("C17") {
+		t.Skip()
+	}
+	rec := vstat.New("C17", "degenerate")
+	rec.RunRapid(t, func(rt *rapid.T) {
+		sc := genScenario(rt, true)
 		st, err := run(sc)
 		rec.Case(sc, st.nontrivial(), st.labels()...)
 		if err != nil {
